@@ -83,6 +83,8 @@ structure Arm where
   await : Bool
   okVariant : Name
   errVariant : Name
+  /-- the state name an InvalidTransition abort is reported with (`#source_str`) -/
+  errFrom : Name
   deriving Repr, Inhabited, DecidableEq
 
 /-- The three dynamic accessors generated for one storage spec. -/
